@@ -174,6 +174,9 @@ def _exact_log(x):
         if fx == 1.0:
             return LogVal({})
         if fx > 0 and math.isfinite(fx):
+            fr = Fraction(fx).limit_denominator(4096)
+            if fr.numerator / fr.denominator == fx:
+                return LogVal.log_of(fr)  # the double is the quotient of two small integers (e.g. n_finite / n_total)
             return LogVal.log_of(Fraction(fx))
         raise HarnessError(f"log({fx})")
     if isinstance(x, Fraction):
